@@ -34,6 +34,8 @@ def WFB (Ks : List String) (N : Nat) : Ex ℝ → Prop
   | .quad _ a => WFB Ks N a ∧ "" ∈ Ks ∧ 0 < N ∧ DomOK a.dom Ks N
   | .gauss _ _ a => WFB Ks N a ∧ "" ∈ Ks ∧ 0 < N ∧ DomOK a.dom Ks N
   | .const _ _ _ => True
+  | .bil m na nb _ a b => WFB Ks N a ∧ WFB Ks N b ∧ "" ∈ Ks ∧ m ≤ N ∧ na ≤ N ∧ nb ≤ N
+  | .varcov n a b => WFB Ks N a ∧ WFB Ks N b ∧ "" ∈ Ks ∧ 0 < N ∧ n ≤ N
 
 theorem single_eq_pick (v : Nat → ℝ) : single v = fun k i => if k = "" then v i else 0 := rfl
 
@@ -143,6 +145,46 @@ theorem jac_adjoint (Ks : List String) (N : Nat) (hK : Ks.Nodup) (e : Ex ℝ) (w
     intro hw ρ h y
     simp only [lin]
     rw [ipB_zero_right, ipB_zero_left]
+  | bil m na nb T a b iha ihb =>
+    intro hw ρ h y
+    obtain ⟨hwa, hwb, h0, hm, hna, hnb⟩ := hw
+    simp only [lin, single_eq_pick]
+    rw [ipB_add_left, ← iha hwa, ← ihb hwb, ipB_pick_right Ks N hK "" h0, ipB_pick_left Ks N hK "" h0,
+      ipB_pick_left Ks N hK "" h0]
+    rw [rsum_congr N _ (fun o => if o < m then y "" o * rsum na (fun i => rsum nb (fun j => ten T o i j *
+        ((lin a ρ wm).jac h "" i * (lin b ρ wm).val "" j + (lin a ρ wm).val "" i * (lin b ρ wm).jac h "" j))) else 0)
+      (fun o _ => by split <;> ring)]
+    rw [rsum_ite_lt m N hm]
+    rw [rsum_congr N _ (fun i => if i < na then
+        rsum m (fun o => rsum nb (fun j => ten T o i j * (lin b ρ wm).val "" j * y "" o)) * (lin a ρ wm).jac h "" i else 0)
+      (fun i _ => by split <;> ring)]
+    rw [rsum_ite_lt na N hna]
+    rw [rsum_congr N _ (fun j => if j < nb then
+        rsum m (fun o => rsum na (fun i => ten T o i j * (lin a ρ wm).val "" i * y "" o)) * (lin b ρ wm).jac h "" j else 0)
+      (fun j _ => by split <;> ring)]
+    rw [rsum_ite_lt nb N hnb]
+    exact bil_adj_algebra m na nb (ten T) (y "") ((lin a ρ wm).val "") ((lin a ρ wm).jac h "")
+      ((lin b ρ wm).val "") ((lin b ρ wm).jac h "")
+  | varcov n a b iha ihb =>
+    intro hw ρ h y
+    obtain ⟨hwa, hwb, h0, hN, hn⟩ := hw
+    simp only [lin, single_eq_pick]
+    rw [ipB_add_left, ← iha hwa, ← ihb hwb, ipB_pick_right Ks N hK "" h0, ipB_pick_left Ks N hK "" h0,
+      ipB_pick_left Ks N hK "" h0]
+    rw [rsum_congr N _ (fun i => if i = 0 then y "" i * rsum n (fun j =>
+        ((lin a ρ wm).val "" j * (lin b ρ wm).val "" j) * (lin a ρ wm).jac h "" j
+        + ((0.5 : ℝ) * ((lin a ρ wm).val "" j * (lin a ρ wm).val "" j) - (0.5 : ℝ) / (lin b ρ wm).val "" j)
+          * (lin b ρ wm).jac h "" j) else 0) (fun i _ => by split <;> simp)]
+    rw [rsum_ite_zero N hN]
+    rw [rsum_congr N _ (fun j => if j < n then
+        ((lin a ρ wm).val "" j * (lin b ρ wm).val "" j) * y "" 0 * (lin a ρ wm).jac h "" j else 0)
+      (fun j _ => by split <;> ring)]
+    rw [rsum_ite_lt n N hn]
+    rw [rsum_congr N _ (fun j => if j < n then
+        ((0.5 : ℝ) * ((lin a ρ wm).val "" j * (lin a ρ wm).val "" j) - (0.5 : ℝ) / (lin b ρ wm).val "" j) * y "" 0
+          * (lin b ρ wm).jac h "" j else 0) (fun j _ => by split <;> ring)]
+    rw [rsum_ite_lt n N hn, ← rsum_add, ← rsum_mul_left]
+    exact rsum_congr n _ _ (fun j _ => by ring)
 
 /-- non-vacuity: `sum (exp(x_a) * x_b)` over keys a, b of size 2 lives in the box {"", "a", "b"} × {0, 1} -/
 example : WFB ["", "a", "b"] 2 (.sum (.mul (.ptw .exp [] (.var "a" 2)) (.var "b" 2))) := by
